@@ -7,9 +7,12 @@ import (
 	"io"
 	"math/bits"
 	"net"
+	"strings"
 	"time"
 
 	"github.com/enfein/mieru/v3/pkg/appctl/appctlpb"
+
+	"google.golang.org/protobuf/proto"
 
 	"verif/engine/explore"
 	"verif/engine/runner"
@@ -34,6 +37,11 @@ type prog struct {
 	Pad1     int
 	Pad2     int
 	Carry    bool // first TCP nonce ends in ff ff so that the increment carries over bytes
+	// Carry8: the first TCP nonce ends in ff ff ff ff ff ff ff fd (no user hint: hints are
+	// optional), so that the 3rd increment carries into byte 15 of the 24-byte nonce
+	Carry8 bool
+	// LongCred: the user has a 64-byte name and a 64-byte password (the configured maxima)
+	LongCred bool
 	Seed     int64
 }
 
@@ -46,7 +54,7 @@ func (p prog) String() string {
 	if p.UDP {
 		t = "udp"
 	}
-	return fmt.Sprintf("%s %s open-payload=%d writes=%v le-mode=%d mask=%08x rot=%d le-pad=%d pad1=%d pad2=%d carry-nonce=%v seed=%d", t, role, p.OpenPay, p.Writes, p.Mode, p.Mask, p.Rot, p.LEPad, p.Pad1, p.Pad2, p.Carry, p.Seed)
+	return fmt.Sprintf("%s %s open-payload=%d writes=%v le-mode=%d mask=%08x rot=%d le-pad=%d pad1=%d pad2=%d carry-nonce=%v seed=%d", t, role, p.OpenPay, p.Writes, p.Mode, p.Mask, p.Rot, p.LEPad, p.Pad1, p.Pad2, p.Carry, p.Seed) + fmt.Sprintf(" carry8=%v long-credential=%v", p.Carry8, p.LongCred)
 }
 
 var cred = refwire.Cred{User: "alice", Password: "pw1"}
@@ -57,6 +65,13 @@ func nonceFor(p prog, salt byte) []byte {
 	n := make([]byte, 24)
 	for i := range n {
 		n[i] = byte(int(p.Seed)*31+i*7) ^ salt
+	}
+	if p.Carry8 && salt == firstNonceSalt(p) {
+		for i := 16; i < 24; i++ {
+			n[i] = 0xff
+		}
+		n[23] = 0xfd
+		return n
 	}
 	if p.Carry {
 		// search a 16-byte prefix whose hint ends in ff ff: the second AEAD operation then
@@ -71,6 +86,17 @@ func nonceFor(p prog, salt byte) []byte {
 	}
 	return n
 }
+
+// firstNonceSalt is the salt nonceFor is called with for the first nonce of the reference
+// peer's TCP stream.
+func firstNonceSalt(p prog) byte {
+	if p.AsServer {
+		return 0x55
+	}
+	return 0
+}
+
+var longCred = refwire.Cred{User: strings.Repeat("u", 63) + "X", Password: strings.Repeat("p", 63) + "Y"}
 
 var socksReq = []byte{5, 1, 0, 1, 93, 184, 216, 34, 0x03, 0xe8} // CONNECT 93.184.216.34:1000
 var socksResp = []byte{5, 0, 0, 1, 0, 0, 0, 0, 0, 0}
@@ -94,6 +120,13 @@ func peerExec(p prog, ctl *explore.Ctl) explore.Result {
 		stp = xfer.TP(-1, 0, false, 0, appctlpb.LowEntropyMode(p.Mode), appctlpb.LowEntropyMaskRotation(p.Rot))
 	}
 	cfg := world.Config{UDP: p.UDP, MTU: 1400, Seed: p.Seed, Horizon: 90 * time.Second, ServerTP: stp, ClientTP: stp}
+	cred = refwire.Cred{User: "alice", Password: "pw1"}
+	user := world.DefaultUsers()[0]
+	if p.LongCred {
+		cred = longCred
+		user = &appctlpb.User{Name: proto.String(longCred.User), Password: proto.String(longCred.Password)}
+		cfg.Users = []*appctlpb.User{user}
+	}
 	if p.AsServer {
 		// no real server: the world is started by hand below
 		cfg.NoClient = true
@@ -103,7 +136,7 @@ func peerExec(p prog, ctl *explore.Ctl) explore.Result {
 	ex := world.RunBare(cfg, ctl, func(w *world.World) {
 		unix := func() int64 { return w.S.Epoch.Unix() + w.S.NowNS()/1e9 }
 		opts := func(nonce []byte) refwire.EncodeOpts {
-			return refwire.EncodeOpts{Nonce: nonce, Pad1: fill(p.Pad1, 'x'), Pad2: fill(p.Pad2, 'y'), LEPadBit: p.LEPad, Unix: unix()}
+			return refwire.EncodeOpts{Nonce: nonce, Pad1: fill(p.Pad1, 'x'), Pad2: fill(p.Pad2, 'y'), LEPadBit: p.LEPad, Unix: unix(), NoHint: p.Carry8 && !p.UDP}
 		}
 		var appData []byte
 		for i, n := range p.Writes {
@@ -480,7 +513,7 @@ func peerExec(p prog, ctl *explore.Ctl) explore.Result {
 			Stop() error
 		}
 		w.OnNode("client", func() {
-			c, err := w.NewClient(world.DefaultUsers()[0], nil)
+			c, err := w.NewClient(user, nil)
 			if err != nil {
 				v.Add("setup", "%v", err)
 				return
@@ -595,6 +628,16 @@ func peerUnits(tier string) []runner.Unit {
 						if srv && op > 0 {
 							continue
 						}
+					}
+					// nonce whose 8th increment carries into byte 15; and a user with a name and a
+					// password of the maximum length
+					if !udp {
+						i++
+						run(u, prog{AsServer: srv, OpenPay: 10, Writes: []int{10, 20, 30, 40, 50, 60, 70, 80}, Carry8: true, Seed: int64(i)})
+					}
+					for _, wr := range [][]int{{1}, {1024, 1025}} {
+						i++
+						run(u, prog{UDP: udp, AsServer: srv, OpenPay: 10, Writes: wr, Pad2: 1, LongCred: true, Seed: int64(i)})
 					}
 					// low entropy: all modes x all rotations x both polarities x masks
 					for mode := uint8(1); mode <= 4; mode++ {
